@@ -203,6 +203,15 @@ type Engine struct {
 }
 
 // URI returns the document URI of a workspace-relative path.
+// PluginDir is where the simulated client is installed; its bundled Lua files (API stubs the
+// real extension ships) live under server/meta.
+const PluginDir = "/plug"
+
+var pluginFiles = map[string]string{
+	"std.lua":      "---@class stdmeta\n---@field version string\nstdmeta = {}\nfunction stdmeta.now() end\nmeta_global = 1\n",
+	"more/ext.lua": "function meta_helper(a, b)\n  return a\nend\n",
+}
+
 func URI(rel string) string { return "file://" + Abs(rel) }
 
 // Abs returns the absolute simulated path.
@@ -897,6 +906,11 @@ func runInBubble(t *testing.T, sc *Scenario, cfg simrt.Config, hooks Hooks, res 
 				simfs.WriteFile(Abs(f.Path), f.Data)
 			}
 		}
+		if sc.Plugin {
+			for n, d := range pluginFiles {
+				simfs.WriteFile(PluginDir+"/server/meta/"+n, []byte(d))
+			}
+		}
 		if os.Getenv("VERIF_TRACE") != "" {
 			cfg.KeepTrace = true
 		}
@@ -909,6 +923,14 @@ func runInBubble(t *testing.T, sc *Scenario, cfg simrt.Config, hooks Hooks, res 
 			opts := sc.InitOpts
 			if opts == nil {
 				opts = AllOn()
+			}
+			if sc.Plugin {
+				o2 := map[string]interface{}{}
+				for k, v := range opts {
+					o2[k] = v
+				}
+				o2["PluginPath"] = PluginDir
+				opts = o2
 			}
 			p := map[string]interface{}{"rootUri": "file://" + Root, "rootPath": Root, "initializationOptions": opts}
 			if len(sc.Folders) > 0 {
